@@ -120,6 +120,14 @@ func doBind(sc *Collection, originalInvokeF *provider, originalInitF *provider, 
 	if err != nil {
 		return err
 	}
+	// synthetic providers were inserted and funcs may have been reordered
+	// since invokeIndex was noted
+	for i, fm := range funcs {
+		if fm == invokeF {
+			invokeIndex = i
+			break
+		}
+	}
 
 	err = checkForShadowing(funcs)
 	if err != nil {
